@@ -21,7 +21,7 @@ below 2^64 (`bytes_held`'s `saturating_add` never saturates), and for contiguity
 stated contract, enforced by the code's `debug_assert!`: in the dev profile it needs no hypothesis).
 
 clause → theorem
-* facts the proofs rest on ....................................... `evict_keep_one_fact`, `resume_cap_fact`, `advance_fact`
+* facts the proofs rest on ....................................... `evict_keep_one_fact`, `resume_cap_fact`, `advance_fact`, `defaults_fact`
 * ring = suffix of the pushes since the last advance (oldest first, bodies verbatim) `ring_is_suffix`
 * ring contiguous under abutting pushes / always in the dev profile . `ring_contiguous`, `ring_contiguous_dev`
 * bytes_held = Σ wire; > 1 chunk only within capacity (capacity 0 too)  `ring_bounded`
@@ -47,6 +47,12 @@ theorem evict_keep_one_fact : F.evictKeepOne = true := by decide
 unconditionally and leaves `cancelled` alone; `wait_for_reconnect` tests `cancelled` first. -/
 theorem resume_cap_fact : F.resumeCap = true := by decide
 theorem advance_fact : F.advanceDropsPending = true ∧ F.advanceKeepsCancel = true := by decide
+
+/-- `TransferControl::new(w)` builds the ring with `DEFAULT_REPLAY_RING_BYTES`, and that default is at least the
+default window, so with default settings a whole window of in-flight chunks is retained for replay; both fit u64. -/
+theorem defaults_fact :
+    Gen.newUsesDefaultRing = true ∧ Gen.defaultWindowBytes ≤ Gen.defaultReplayRingBytes ∧
+    0 < Gen.defaultWindowBytes ∧ Gen.defaultReplayRingBytes < U64 := by decide
 
 /-- The ring always is a suffix of the chunks pushed since the last `advance_to_file` — eviction is
 oldest-first and never alters a retained chunk (offset, length, flag and wire body are the pushed ones).
